@@ -1,25 +1,23 @@
-//! Ad-hoc probe (not registered): run one C03 layout repeatedly and time it.
+//! Ad-hoc probe (not registered): read deviations on the LevelDB index files of the C03 index forms.
 use crate::c03::*;
 use crate::gen::dependent_chain;
-use crate::hx::Worker;
 use refmodel::coins::coin;
-use refmodel::run::RunSpec;
-pub fn run(label: &str) {
+use refmodel::ev::Report;
+pub fn run(_label: &str) {
     let btc = coin("bitcoin");
-    let chain = dependent_chain(btc, 0, 3);
+    let chain = dependent_chain(btc, 0, 4);
     let root = refmodel::world::scratch_root();
-    for l in layouts(3, false) {
-        if l.label != label { continue; }
-        let wk = Worker::new(&root, 0);
+    let mut rep = Report::new("C03", "probe");
+    for form in 0..4u8 {
+        let files = vec![(0u64, None, (0..4).map(|b| (b, Gap::None, None)).collect())];
+        let l = Layout { files, index_form: form, junk_keys: false, foreign_entries: false, label: format!("form{}", form) };
         let world = build_world(btc, &chain.blocks, 0, &l);
-        for i in 0..20 {
-            wk.materialise(&world).unwrap();
-            let t = std::time::Instant::now();
-            let mut spec = RunSpec::new("bitcoin", "csvdump").verify(true);
-            spec.env.push(("VERIF_RUN_TIMEOUT".into(), "3".into()));
-            let r = wk.run(&spec);
-            println!("{} {} {:?} {:?}", i, t.elapsed().as_millis(), r.code, r.signal);
-        }
+        crate::c10::read_deviations_on(&mut rep, &root, "C03", &world, &world, &format!("index-form{}", form), &["csvdump"], "index/");
+    }
+    println!("counters {:?}", rep.counters);
+    println!("machinery {:?}", rep.machinery_errors);
+    for (sig, (n, ds)) in &rep.disagreements {
+        println!("{} x{}: {}", sig, n, ds.first().map(|d| format!("{:?}", d)).unwrap_or_default().chars().take(600).collect::<String>());
     }
     let _ = std::fs::remove_dir_all(&root);
 }
